@@ -332,7 +332,7 @@ mismatch between values and axes""".format(inferred, self.values.shape)
     @values.setter
     def values(self, newvalues):
         self._values = _maybe_cast_type(self._values, newvalues)
-        self._values[:] = newvalues
+        self._values[...] = newvalues # also valid for a 0-d array
 
     @property
     def axes(self):
